@@ -1,9 +1,11 @@
 (* Property C05 -- statements only.  (a) any segmentation, (b) any retransmitted duplicates, and any interleaving of the two
    directions deliver to the record handler exactly the records of each endpoint's byte stream -- (d) from any initial sequence
-   number, the stream running across 2^32 included.  (c) reordering: see C05_reordering. *)
+   number, the stream running across 2^32 included.  (c) reordering: C05_reordering (any arrival order
+   that keeps the direction's first data segment first; the other arrival orders are the open finding first-segment-displaced). *)
 From Coq Require Import ZArith List Bool.
 From Coq Require String.
-Require Import PyLib SuiteTypes Crypto KeySchedule Packet Reassembly Decryptor TlsSession ReasmP SessionP C05P.
+From Coq Require Import Permutation.
+Require Import PyLib SuiteTypes Crypto KeySchedule Packet Reassembly Decryptor TlsSession ReasmP SessionP C05P ReorderP.
 Import ListNotations.
 Open Scope Z_scope.
 
@@ -37,3 +39,14 @@ Theorem C05_directions_independent : forall sip sport ps x x' tr, gtr_trace sip 
   feed (x_cn x) (x_cb x) (dir sip sport false ps) = Ok (x_cn x', x_cb x', side false tr).
 Proof. exact trace_per_direction. Qed.
 Print Assumptions C05_directions_independent.
+
+(* (c) the segments of one direction captured in ANY order -- `order` is any permutation of the segment indices whose first element
+   is 0, i.e. the direction's first data segment is also captured first -- deliver exactly the records of the stream, in order, and
+   leave nothing buffered.  (With another segment captured first the implementation anchors the stream on that segment: the open
+   finding first-segment-displaced.) *)
+Theorem C05_reordering : forall isn chunks dummy R order,
+  in_order isn chunks -> len (data chunks) < 2147483648 -> Forall wf_rec R -> data chunks = concat R ->
+  Permutation order (seq 0 (length chunks)) -> match order with [] => True | j :: _ => j = 0%nat end ->
+  exists n' recs, feed None [] (map (fun i => nth i chunks dummy) order) = Ok (n', [], recs) /\ map r_raw recs = R.
+Proof. intros isn chunks dummy R order Ho Hl HR Hd HP Hf. exact (reordered_delivers chunks isn Ho Hl dummy R order HR Hd HP Hf). Qed.
+Print Assumptions C05_reordering.
